@@ -12,14 +12,25 @@ WMS = ((0, 0), (1, 2), (2, 2), (2, 1), (0, 1), (0, 3))
 
 def run(tier, seed):
     q = tier == "quick"
-    inv = ["TypeOK", "Conserved", "ReadCbOnlyAboveLow", "InputNeverAboveHigh", "NoStall"]
+    inv = ["TypeOK", "Conserved", "ReadCbOnlyAboveLow", "InputNeverAboveHigh", "NoStall", "FilterRespectsUnderlyingHigh"]
     fn = ("two", "one", "id")[seed % 3]
     df = seed % 2 == 0
     FW = lambda f, D: bc.consts("filt", WM | {"wmu"}, D, wms=WMS, durs=(0,), filtfn=f)
     # directed family: L units buffered unread on a socket, read high watermark set to L-1 / L / L+1, then the peer
     # writes more: no EOF while the peer is open, suspended at == high, reading resumes after a drain
-    HM = lambda d: dict(name="C18_sock_highmark_" + ("def" if d else "imm"), scripts=bc.sock_highmark_family(), units=(1, 512),
-                        consts=bc.consts("sock", {"write", "enable", "loop", "script", "wmr"}, 9, sizes=(1, 2, 3, 4), durs=(0,),
+    # + read high watermark set, cleared, set again, then the application drains from OUTSIDE the read callback: reading
+    # resumes as soon as the input is below the mark (pair and socket); + filter "two" (moves less than the limit per
+    # call) over an underlying endpoint with write high watermark W whose output does not drain: never more than W
+    ALLW = [(lo, hi) for lo in (0, 1) for hi in (0, 1, 2, 3)]
+    PWR = dict(name="C18_pair_wmreset", scripts=bc.wm_reset_family("pair"), units=(1, 4096),
+               consts=bc.consts("pair", {"write", "enable", "loop", "wmr", "read", "clr"}, 9, sizes=(1, 2, 3, 4), durs=(0,),
+                                wms=ALLW, drains=(0, 1, 99)))
+    FUH = lambda f: dict(name="C18_filt_underhigh_" + f, scripts=bc.filt_under_high_family(), units=(1, 1000),
+                         consts=bc.consts("filt", {"write", "enable", "loop", "wmu"}, 9, sizes=(1, 2, 3, 4, 5), durs=(0,),
+                                          wms=ALLW, drains=(0, 1, 99), filtfn=f))
+    HM = lambda d: dict(name="C18_sock_directed_" + ("def" if d else "imm"),
+                        scripts=bc.sock_highmark_family() + bc.wm_reset_family("sock"), units=(1, 512),
+                        consts=bc.consts("sock", {"write", "enable", "loop", "script", "wmr", "read", "clr"}, 9, sizes=(1, 2, 3, 4), durs=(0,),
                                          wms=[(lo, hi) for lo in (0, 1) for hi in (0, 1, 2, 3)], drains=(0, 1, 99), defer=d))
     quick_gen = [
         # exhaustive: also the bounded model check of the quick tier (invariants on every state of every history)
@@ -32,7 +43,7 @@ def run(tier, seed):
         dict(name="C18_sock_" + ("def" if df else "imm"),
              consts=bc.consts("sock", WM, 10, wms=WMS, durs=(0,), extras=("none", "wm0"), xkinds=("r",), defer=df),
              simulate=20, units=(1, 512)),
-        HM(df),
+        HM(df), PWR, FUH("two"),
     ]
     plan = {
         "mc": [] if q else [("C18_mc_pair", bc.consts("pair", WM, 5, sizes=(1, 3), drains=(0, 1), wms=((0, 0), (1, 2), (2, 1)),
@@ -50,7 +61,7 @@ def run(tier, seed):
             dict(name="C18_sock_imm", consts=bc.consts("sock", WM, 14, wms=WMS, durs=(0,), extras=("none", "wm0"),
                                                        xkinds=("r",)), simulate=300, units=(1, 512)),
             dict(name="C18_sock_def", consts=bc.consts("sock", WM, 14, wms=WMS, durs=(0,), defer=True), simulate=300, units=(1,)),
-            HM(False), HM(True),
+            HM(False), HM(True), PWR, FUH("two"), FUH("one"),
         ],
         "monitor_by_kind": {k: bc.mon_c18(k) for k in ("pair", "filt", "sock")},
         "need": ["write", "wm", "cb:r", "cb:w"],
